@@ -572,6 +572,23 @@ class Interp(object):
                 self.on_setattr(obj, attr, value)
             obj.attr_cache[attr] = value
             return
+        if isinstance(obj, Arr) and attr in ('real', 'imag'):
+            # a.real = v / a.imag = v: the other part of every element stays
+            from . import libmodels
+            m = libmodels.CURRENT
+            if m is None:
+                raise self.err('a.%s = .. without a model object' % attr)
+            obj._check_writeable()
+            vals = ndarr.broadcast_to(value, obj.shape).items() if isinstance(value, Arr) else [value] * obj.size
+            unit = Poly.const(Z8.I)
+            for pos, new in zip(obj.pos, vals):
+                old = obj.buf.data[pos]
+                fresh = (isinstance(old, (int, Fr)) and old == 0) or type(old).__name__ == '_Uninit'     # np.zeros / np.empty: nothing to keep
+                re = new if attr == 'real' else (0 if fresh else m.scalar_fn('real', old))
+                im = new if attr == 'imag' else (0 if fresh else m.scalar_fn('imag', old))
+                obj.buf.data[pos] = ndarr.s_add(re, ndarr.s_mul(unit, im)) if not (isinstance(im, (int, Fr)) and im == 0) else re
+                obj.buf.writes.append((pos, None))
+            return
         try:
             setattr(obj, attr, value)
         except AttributeError:
